@@ -916,7 +916,11 @@ func (fc *FnCtx) execBody(fr *Frame, st *State, reach string) (Val, string) {
 				}
 				fr.retVals = append(fr.retVals, retEdge{breach, bst, rv})
 			case *ssa.Panic:
-				fc.oblige(fr, "panic", fc.panicText(fr, t), breach, "false", false, nil)
+				kind := "panic"
+				if fc.con != nil && fc.con.NoPanic && fr.parent == nil {
+					kind = "explicit-panic" // `nopanic`: checked even under `nosafety`
+				}
+				fc.oblige(fr, kind, fc.panicText(fr, t), breach, "false", false, nil)
 			default:
 				fc.curReach = breach
 				fc.execInstr(fr, bst, breach, ins)
